@@ -153,6 +153,8 @@ def layers(prop, tier):
     Ls.append(Layer('attrs-with-nan', 'checks.setjoin:w_tables', jobs,
                     'UNIV(4) joins requesting output attributes whose columns contain missing values '
                     '(rows must neither be lost nor invented), n_jobs 1,2', min_nontrivial=100, chunksize=4))
+    from checks.configx import config_layer
+    Ls.append(config_layer([prop], quick))
     if prop != 'C01':
         return Ls
     # (g) reduction-lemma self-test under injected weakened arithmetic (harness validity, not a property)
